@@ -1677,7 +1677,8 @@ func (self *Aof) WaitFlushAofChannel() error {
 	}
 
 	<-channelFlushWaiter
-	return nil
+	// the waiter is released when ANY channel goes idle: wait until every queue is empty
+	return self.WaitFlushAofChannel()
 }
 
 func (self *Aof) ExecuteConsistencyBarrierCommand(commandType uint8) bool {
